@@ -61,6 +61,11 @@ func (Engine) Describe(prop string) core.Description {
 		d.Probes = []string{"mutate-slice-write-ids", "mutate-slice-write-bytes", "mutate-slice-write-ptr-bytes", "mutate-marshal", "mutate-filter", "mutate-type-edit", "mutate-set", "copy-of-wrapped", "copy-of-soft", "new-of-wrapped", "new-of-soft", "type-copy", "copy-of-copy", "mutate-type-edit-via-GetType", "mutate-append-through-get", "soft-of-struct-built-type"}
 	}
 
+	if prop == "C18" {
+		d.Rule += "; for Type.Copy, what New() of the other type makes is compared before and after every type edit"
+		d.Probes = append(d.Probes, "new-of-the-other-type-after-a-type-edit")
+	}
+
 	if prop == "C17" {
 		d.Rule += "; in half of the runs a third twin, Wrap given a struct value instead of a pointer; types may have no attribute at all"
 		d.Probes = append(d.Probes, "twin-wrapped-from-struct-value", "type-with-relationships-only")
